@@ -87,6 +87,7 @@ type sim struct {
 	parked   []*G // stalled inside a read-modify-write window until parkUntil
 	addrClk  map[unsafe.Pointer]*Clock
 	writes   map[unsafe.Pointer]lastWrite
+	reads    map[unsafe.Pointer]*readSet
 	raceSeen map[string]bool
 	rmwOwner map[unsafe.Pointer]int // location -> goroutine id that updated it, -1: several (the pointers keep the objects alive: no address is reused within a run)
 	curMut   bool
